@@ -248,6 +248,7 @@ Init ==
   /\ jlines \in (IF q.join = "none" THEN {<<>>} ELSE JoinLineSets)
   /\ mode \in Modes
   /\ mode = "incr" => (q.limit = NoLimit /\ q.join = "none")
+  /\ mode = "follow" => (q.join = "none" /\ (IsAgg => q.limit = NoLimit) /\ Len(files) = 1)      \* FollowFileExecutor: one file, no join
   /\ intr \in InterruptPoints
   /\ (intr.at = "join") => q.join # "none"
   /\ (intr.at # "none") => mode = "batch"
@@ -317,7 +318,7 @@ ReadLine ==
   /\ pc = "read"
   /\ fi <= Len(files)
   /\ li < Len(files[fi])
-  /\ IF mode = "batch" /\ ~IsAgg /\ LimitReached /\ "LimitAfterEmit" \notin Dev
+  /\ IF mode \in {"batch", "follow"} /\ ~IsAgg /\ LimitReached /\ "LimitAfterEmit" \notin Dev
      THEN \* the limit is checked before a line is consumed (LIMIT 0 reads nothing)
           /\ pc' = "final"
           /\ UNCHANGED <<running, fi, li, hooks, consumed, seen, nout, groups, printed, steps, status>>
@@ -344,11 +345,11 @@ ReadLine ==
                            IN /\ seen' = s[3]
                               /\ running' = run2                \* an interrupt raised by the printer after its n-th record
                               /\ printed' = printed \o out
-                              /\ steps' = IF mode = "incr" THEN Append(steps, Out(out, s[1])) ELSE steps
+                              /\ steps' = IF mode \in {"incr", "follow"} THEN Append(steps, Out(out, s[1])) ELSE steps
                               /\ nout' = nout + counted
                               /\ status' = s[1]
                               /\ pc' = IF s[1] # "ok" THEN "done"
-                                       ELSE IF HasLimit /\ nout + counted >= q.limit /\ mode = "batch" /\ "LimitPerFile" \notin Dev THEN "final"
+                                       ELSE IF HasLimit /\ nout + counted >= q.limit /\ mode \in {"batch", "follow"} /\ "LimitPerFile" \notin Dev THEN "final"
                                        ELSE "read"
                               /\ UNCHANGED groups
                       ELSE LET u == UpdateLine(envs, groups, FALSE)
@@ -357,7 +358,7 @@ ReadLine ==
                               /\ status' = IF u[1] # "ok" THEN u[1] ELSE status
                               /\ pc' = IF u[1] # "ok" THEN "done" ELSE "read"
                               /\ UNCHANGED <<seen, nout, printed>>
-                              /\ steps' = IF mode # "incr" THEN steps
+                              /\ steps' = IF mode \notin {"incr", "follow"} THEN steps
                                            ELSE IF u[1] # "ok" THEN Append(steps, Out(<<>>, u[1]))
                                            ELSE IF ~u[3] THEN Append(steps, Out(<<>>, "none"))     \* no row passed: nothing is shown
                                            ELSE Append(steps, EngTableOf(u[2]))
@@ -431,14 +432,19 @@ BatchRefinesSem ==
 
 \* C11: after every line the incremental table equals the batch meaning of the consumed prefix
 IncrRefinesSem ==
-  (mode = "incr" /\ IsAgg /\ pc = "read" /\ status = "ok" /\ ji >= Len(jlines)) =>
+  (mode \in {"incr", "follow"} /\ IsAgg /\ pc = "read" /\ status = "ok" /\ ji >= Len(jlines)) =>
      LET s == AggTable(q, SemEnvs(ConsumedLines, jlines))
          e == EngTableOf(groups)
      IN (KnownSt(s.st) /\ KnownSt(e.st)) => (e.recs = s.recs /\ e.st = s.st)
 IncrSelectRefinesSem ==
-  (mode = "incr" /\ ~IsAgg /\ status = "ok" /\ pc = "read") =>
+  (mode \in {"incr", "follow"} /\ ~IsAgg /\ status = "ok" /\ pc = "read" /\ ~HasLimit) =>
      LET s == SelectAll(q, SemEnvs(ConsumedLines, jlines), StarCols(q), <<>>)
      IN KnownSt(s.st) => printed = s.recs
+
+FollowLimit ==
+  (mode = "follow" /\ ~IsAgg /\ HasLimit /\ status = "ok" /\ pc = "done") =>
+     LET s == SelectAll([q EXCEPT !.limit = NoLimit], SemEnvs(AllLines, jlines), StarCols(q), <<>>)
+     IN (s.st = "ok") => printed = Take(q.limit, s.recs)
 
 \* C07: a LIMIT-n SELECT consumes nothing beyond the line that produced its n-th row
 ConsumedBound ==
